@@ -695,6 +695,11 @@ class DescriptorGen:
 			if field.is_conditional:
 				continue
 			if field.name in SKIP_TOP and (top or model.factory_type or any(f.name == 'network' for f in fields)):
+				if field.name == 'network' and top and rng.randrange(4) == 0:
+					# the descriptor names a network itself (equal to or different from the facade's): the created transaction still holds the
+					# facade's network identifier
+					chosen[field.name] = self.member(model, field, path, top)
+					self.note('network:given-in-descriptor')
 				continue
 			target = self.ctx.net.by_name.get(field.field_type) if isinstance(field.field_type, str) else None
 			# a member of abstract struct type has no usable default (the constructor puts an instance of the abstract base class there,
@@ -867,6 +872,27 @@ def injections(ctx, rng, type_name, cls_name, base_pairs):
 			add(with_member(key, {'d': [['bogus', {'i': 1}]]}), 'unknown-member', f'{key}: unknown member inside a nested dictionary', 'bogus')
 			add(with_member(key, {'d': [['size', {'i': 1}]]}), 'non-member', f'{key}: read-only property size inside a nested dictionary', 'size')
 			break
+	# names that mean something at the top level (type / version / network) are ordinary unknown members one level down
+	for field in fields:
+		if field.is_conditional:
+			continue
+		key = codec.fix_name(field.name)
+		nested_type = None
+		as_element = False
+		if isinstance(field.field_type, str) and f'struct:{field.field_type}' in ctx.rule_names:
+			nested_type = field.field_type
+		elif codec.is_array(field) and not codec.is_byte_array(field) and f'array[{field.field_type.element_type}]' in ctx.rule_names \
+			and f'struct:{field.field_type.element_type}' in ctx.rule_names:
+			nested_type, as_element = field.field_type.element_type, True
+		if nested_type is None:
+			continue
+		nested_names = {codec.fix_name(f.name) for f in codec.non_const(ctx.net.by_name[nested_type])}
+		for special in ('type', 'version', 'network'):
+			if special in nested_names or codec.fix_name(special) in nested_names:
+				continue
+			node = {'d': [[special, {'s': 'x'} if special == 'type' else {'i': 1}]]}
+			add(with_member(key, {'l': [node]} if as_element else node), 'unknown-member',
+				f'{key}: unknown member {special!r} inside a nested {"array element" if as_element else "dictionary"} ({nested_type})', special)
 	return found
 
 
